@@ -187,6 +187,10 @@ pub struct ShimState {
     pub convert_params: bool,
     /// number of fallible callbacks started (auth, query, prepare, execute, init)
     pub n_callbacks: usize,
+    /// no scripted actions: query/execute -> completed(0,0), init -> ok, prepare -> reply with the
+    /// next id of `auto_ids` (or error when that is None), zero columns and `auto_nparams` parameters
+    pub auto: bool,
+    pub auto_ids: VecDeque<Option<(u32, usize)>>,
 }
 
 pub struct Shim {
@@ -214,6 +218,9 @@ impl Shim {
     }
     fn next_action(&self) -> Option<Action> {
         self.st.borrow_mut().actions.pop_front()
+    }
+    fn auto_mode(&self) -> bool {
+        self.st.borrow().auto
     }
     fn log_call(&self, cb: usize, name: &'static str, ok: bool, row: Option<(usize, usize)>) {
         self.st.borrow_mut().calls.push(WriterCall { callback: cb, name, ok, row });
@@ -323,11 +330,15 @@ impl Shim {
     }
 
     fn result_action<W: io::Read + io::Write>(&self, cb: usize, what: &str, w: QueryResultWriter<'_, W>) -> Result<(), ShimError> {
-        let prog = match self.next_action() {
-            Some(Action::Result(p)) => p,
-            other => {
-                self.mismatch(format!("{}: no result program scripted (got {:?})", what, other.map(|_| "other action")));
-                Program::completed(0, 0)
+        let prog = if self.auto_mode() {
+            Program::completed(0, 0)
+        } else {
+            match self.next_action() {
+                Some(Action::Result(p)) => p,
+                other => {
+                    self.mismatch(format!("{}: no result program scripted (got {:?})", what, other.map(|_| "other action")));
+                    Program::completed(0, 0)
+                }
             }
         };
         let columns: Vec<Vec<Column>> = prog
@@ -344,11 +355,19 @@ impl Shim {
 
     fn do_prepare<W: io::Read + io::Write>(&mut self, query: &str, info: StatementMetaWriter<'_, W>) -> Result<(), ShimError> {
         let cb = self.begin(Event::Prepare(query.to_string()))?;
-        let prog = match self.next_action() {
-            Some(Action::Prepare(p)) => p,
-            _ => {
-                self.mismatch("prepare: no prepare program scripted".into());
-                PrepProg::Reply { id: 0, params: vec![], cols: vec![] }
+        let prog = if self.auto_mode() {
+            match self.st.borrow_mut().auto_ids.pop_front() {
+                Some(Some((id, n))) => PrepProg::Reply { id, params: (0..n).map(|i| ColSpec::simple(&format!("p{}", i), crate::wire::T_LONG, 0)).collect(), cols: vec![] },
+                Some(None) => PrepProg::Error { kind: 1064, msg: b"rejected".to_vec() },
+                None => PrepProg::Reply { id: 0, params: vec![], cols: vec![] },
+            }
+        } else {
+            match self.next_action() {
+                Some(Action::Prepare(p)) => p,
+                _ => {
+                    self.mismatch("prepare: no prepare program scripted".into());
+                    PrepProg::Reply { id: 0, params: vec![], cols: vec![] }
+                }
             }
         };
         match prog {
@@ -394,11 +413,15 @@ impl Shim {
 
     fn do_init<W: io::Read + io::Write>(&mut self, schema: &str, w: InitWriter<'_, W>) -> Result<(), ShimError> {
         let cb = self.begin(Event::Init(schema.to_string()))?;
-        let prog = match self.next_action() {
-            Some(Action::Init(p)) => p,
-            _ => {
-                self.mismatch("init: no init program scripted".into());
-                InitProg::Ok
+        let prog = if self.auto_mode() {
+            InitProg::Ok
+        } else {
+            match self.next_action() {
+                Some(Action::Init(p)) => p,
+                _ => {
+                    self.mismatch("init: no init program scripted".into());
+                    InitProg::Ok
+                }
             }
         };
         match prog {
